@@ -38,14 +38,15 @@ var _ Unit = (*Storage)(nil)
 // AddUnit it rather searches for existing entry of the same type and sums values
 // if type not found it appends
 func (m ResourceUnits) Add(rhs ResourceUnits) (ResourceUnits, error) {
-	res := m
+	// operate on copies: the operands must neither be modified nor shared with the result
+	res := m.dup()
 
 	if res.CPU != nil {
 		if err := res.CPU.add(rhs.CPU); err != nil {
 			return ResourceUnits{}, err
 		}
 	} else {
-		res.CPU = rhs.CPU
+		res.CPU = rhs.dup().CPU
 	}
 
 	if res.Memory != nil {
@@ -53,7 +54,7 @@ func (m ResourceUnits) Add(rhs ResourceUnits) (ResourceUnits, error) {
 			return ResourceUnits{}, err
 		}
 	} else {
-		res.Memory = rhs.Memory
+		res.Memory = rhs.dup().Memory
 	}
 
 	if res.Storage != nil {
@@ -61,10 +62,37 @@ func (m ResourceUnits) Add(rhs ResourceUnits) (ResourceUnits, error) {
 			return ResourceUnits{}, err
 		}
 	} else {
-		res.Storage = rhs.Storage
+		res.Storage = rhs.dup().Storage
 	}
 
 	return res, nil
+}
+
+// dup returns a copy of m that shares no pointer with it
+func (m ResourceUnits) dup() ResourceUnits {
+	res := ResourceUnits{}
+
+	if m.CPU != nil {
+		cpu := *m.CPU
+		res.CPU = &cpu
+	}
+
+	if m.Memory != nil {
+		memory := *m.Memory
+		res.Memory = &memory
+	}
+
+	if m.Storage != nil {
+		storage := *m.Storage
+		res.Storage = &storage
+	}
+
+	if m.Endpoints != nil {
+		res.Endpoints = make([]Endpoint, len(m.Endpoints))
+		copy(res.Endpoints, m.Endpoints)
+	}
+
+	return res
 }
 
 // Sub tbd
